@@ -72,6 +72,10 @@ fn build_vm(w: &Value) -> Result<RootedThread, Violation> {
     vm.get_database_mut()
         .set_implicit_prelude(w["prelude"].as_bool().unwrap_or(false));
     vm.get_database_mut().set_run_io(true);
+    if w["gated"].as_bool().unwrap_or(false) {
+        // the `rootref` program relies on a store whose result is not used
+        vm.get_database_mut().set_optimize(false);
+    }
     externs::install(&vm);
     let fut = vm.load_script_async("simtypes", gen::TYPES_MODULE);
     match exec::drive(fut, 10_000_000, |_| {}) {
@@ -159,9 +163,10 @@ fn call_io(thread: &RootedThread, name: &str, src: &str, arg: &Val, concurrent: 
 const RECV_SRC: &str = "let ch = import! std.channel.prim\n\\r -> ch.recv r\n";
 
 /// A heap value created by (and living in the heap of) `root`
-fn make_root_value(root: &RootedThread, id: &str, n: u64) -> Result<Val, Violation> {
+fn make_root_value(root: &RootedThread, id: &str, n: u64, as_ref: bool) -> Result<Val, Violation> {
     let src = format!(
-        "let array = import! std.array.prim\n(rec let mk n acc = if n #Int< 1 then acc else mk (n #Int- 1) (array.append acc [n]) in mk {} [0])\n",
+        "let array = import! std.array.prim\nlet st = import! std.st.reference.prim\n(rec let mk n acc = if n #Int< 1 then acc else mk (n #Int- 1) (array.append acc [n]) in {} (mk {} [0]))\n",
+        if as_ref { "st.ref" } else { "" },
         n
     );
     match exec::drive(root.run_expr_async::<OpaqueValue<RootedThread, Hole>>(&format!("mk_{}", id), &src), 10_000_000, |_| {}) {
@@ -242,6 +247,36 @@ fn perform(thread: &RootedThread, op: &Value, id: &str, concurrent: bool, chan: 
                 None => "HANG".to_string(),
             }
         }
+        "rootref" => {
+            // the argument is a reference cell owned by the root thread. The child loads its
+            // content (an array in the root's heap), overwrites the cell, and then spins in pure
+            // bytecode: for the whole loop the old content is referenced from this thread's stack
+            // only, so a collection of the root has to find it there (mark_child_roots)
+            use gluon::vm::api::{Getable, OwnedFunction};
+            let Some(arg) = arg else { return "nop".to_string() };
+            let rounds = op["rounds"].as_u64().unwrap_or(10);
+            let fire = match op["gate"].as_u64() {
+                Some(g) => format!("(sim.fire {} #Int- {})", g, g),
+                None => "0".to_string(),
+            };
+            let src = format!(
+                "let array = import! std.array.prim\nlet st = import! std.st.reference.prim\nlet sim = import! sim\nrec let cnt n = if n #Int< 1 then 0 else 1 #Int+ cnt (n #Int- 1)\nrec let spin r acc = if r #Int< 1 then acc else spin (r #Int- 1) (acc #Int+ cnt 3)\n\\c -> (let a = st.load c in (let u = st.(<-) c [0] in (let s = spin {} {} in array.len a #Int+ array.index a 1 #Int+ s)))\n",
+                rounds, fire
+            );
+            let fname = format!("rr_{}", id);
+            let f = match wait!(thread.run_expr_async::<OpaqueValue<RootedThread, Hole>>(&fname, &src)) {
+                Some(Ok((f, _))) => f,
+                Some(Err(e)) => return classify(&e),
+                None => return "HANG".to_string(),
+            };
+            let mut f: OwnedFunction<fn(OpaqueValue<RootedThread, Hole>) -> OpaqueValue<RootedThread, Hole>> =
+                Getable::from_value(thread, f.get_variant());
+            match wait!(f.call_async(OpaqueValue::from_value(arg))) {
+                Some(Ok(v)) => format!("OK {}", render::render(v.get_variant())),
+                Some(Err(e)) => format!("ERR call {}", e.to_string().lines().next().unwrap_or("")),
+                None => "HANG".to_string(),
+            }
+        }
         "send" => {
             let Some(chan) = chan else { return "nop".to_string() };
             let mut out = Vec::new();
@@ -264,7 +299,7 @@ fn perform(thread: &RootedThread, op: &Value, id: &str, concurrent: bool, chan: 
                     None => ("0".to_string(), "Err e".to_string()),
                 };
                 format!(
-                    "let ch = import! std.channel.prim\nlet io = import! std.io.prim\nlet sim = import! sim\nlet array = import! std.array.prim\nlet {{ Result }} = import! std.types\nrec let cnt n = if n #Int< 1 then 0 else 1 #Int+ cnt (n #Int- 1)\nrec let loop r acc a = if r #Int< 1 then acc else loop (r #Int- 1) (acc #Int+ array.len a #Int+ cnt 3 #Int+ array.index a 0) a\nlet work x =\n    match x with\n    | Ok a -> if (loop {} {} a) #Int< 0 then Err () else Ok a\n    | Err e -> {}\n\\r -> io.flat_map (\\x -> io.wrap (work x)) (ch.recv r)\n",
+                    "let ch = import! std.channel.prim\nlet io = import! std.io.prim\nlet sim = import! sim\nlet array = import! std.array.prim\nlet {{ Result }} = import! std.types\nrec let cnt n = if n #Int< 1 then 0 else 1 #Int+ cnt (n #Int- 1)\nrec let spin r acc = if r #Int< 1 then acc else spin (r #Int- 1) (acc #Int+ cnt 3)\nlet loop r acc a = (spin r acc) #Int+ array.len a #Int+ array.index a 0\nlet work x =\n    match x with\n    | Ok a -> if (loop {} {} a) #Int< 0 then Err () else Ok a\n    | Err e -> {}\n\\r -> io.flat_map (\\x -> io.wrap (work x)) (ch.recv r)\n",
                     work, fire_ok, fire_err
                 )
             } else {
@@ -391,7 +426,7 @@ impl Engine for C14 {
             threads[0]["gthread"] = json!("root");
             {
                 let ops = threads[0]["ops"].as_array_mut().unwrap();
-                let at = rng.below(ops.len() + 1);
+                let at = if rng.chance(1, 2) { 0 } else { rng.below(ops.len() + 1) };
                 ops.insert(at, json!({ "op": "collect" }));
                 if rng.chance(1, 2) {
                     ops.push(json!({ "op": "collect" }));
@@ -423,9 +458,12 @@ impl Engine for C14 {
             }
             for (t, th) in threads.iter_mut().enumerate().skip(1) {
                 let ops = th["ops"].as_array_mut().unwrap();
-                let at = if gated { 0 } else { rng.below(ops.len() + 1) };
-                let n = if gated { 1 } else { 1 + rng.below(2) };
-                ops.insert(at, json!({ "op": "recv", "n": n, "work": *rng.pick(&[20u64, 100, 400]), "gate": if gated { json!(t) } else { Value::Null } }));
+                if gated {
+                    ops.insert(0, json!({ "op": "rootref", "n": 2 + rng.below(40), "rounds": *rng.pick(&[20u64, 100, 400]), "gate": t }));
+                } else {
+                    let at = rng.below(ops.len() + 1);
+                    ops.insert(at, json!({ "op": "recv", "n": 1 + rng.below(2), "work": *rng.pick(&[20u64, 100, 400]) }));
+                }
             }
         }
         if channel {
@@ -502,12 +540,12 @@ impl Engine for C14 {
                 run::set_context(format!("solo reference of operation {}", id));
                 let vm = build_vm(w)?;
                 let solo_chan = if kind == "send" { Some(make_channel(&vm)?) } else { None };
-                if kind == "rootarg" && th["gthread"].as_str() == Some("root") {
+                if (kind == "rootarg" || kind == "rootref") && th["gthread"].as_str() == Some("root") {
                     // only children use values of the root
                     continue;
                 }
-                if kind == "rootarg" {
-                    let arg = make_root_value(&vm, &id, op["n"].as_u64().unwrap_or(3))?;
+                if kind == "rootarg" || kind == "rootref" {
+                    let arg = make_root_value(&vm, &id, op["n"].as_u64().unwrap_or(3), kind == "rootref")?;
                     let child = vm.new_thread().map_err(|e| Violation::new("harness", e.to_string()))?;
                     let out = perform(&child, op, &id, false, None, Some(arg));
                     expected.insert(id, out);
@@ -595,8 +633,9 @@ impl Engine for C14 {
             // values of the root's heap that a child is going to use
             let mut args: BTreeMap<usize, Val> = BTreeMap::new();
             for (k, op) in ops.iter().enumerate() {
-                if op["op"].as_str() == Some("rootarg") && th["gthread"].as_str() != Some("root") {
-                    args.insert(k, make_root_value(&vm, &format!("{}_{}", t, k), op["n"].as_u64().unwrap_or(3))?);
+                let okind = op["op"].as_str().unwrap_or("");
+                if (okind == "rootarg" || okind == "rootref") && th["gthread"].as_str() != Some("root") {
+                    args.insert(k, make_root_value(&vm, &format!("{}_{}", t, k), op["n"].as_u64().unwrap_or(3), okind == "rootref")?);
                     root_values = true;
                 }
             }
